@@ -760,7 +760,13 @@ func (m *Model) fixDots() {
 				ok := false
 				for _, s := range f.sides() {
 					for _, u := range s.Uses {
-						if u.Imp == im && alive(s) && !(fate[s] == "sig" && u.Where == "sig") {
+						live := alive(s)
+						if s.spec.Call {
+							for _, x := range s.spec.Sides {
+								live = live || alive(x)
+							}
+						}
+						if u.Imp == im && live && !(fate[s] == "sig" && u.Where == "sig") {
 							ok = true
 						}
 					}
